@@ -113,3 +113,13 @@ Theorem C19_path_collision_refuted :
     [NoCall; NoCall; Failed EDiff; Passed].
 Proof. exact union_needs_disjointness. Qed.
 Print Assumptions C19_path_collision_refuted.
+
+(* non-vacuity: every theorem of this file that has hypotheses has a concrete, non-trivial instance meeting ALL of them
+   (lemmas <Theorem>_witness / <Theorem>_applied in Proofs/WitnessesP.v); a representative one is restated here *)
+From Snaps Require Import Proofs.WitnessesP.
+Example C19_witnesses :
+  (fresh w19_s0u /\ Forall stand_op_ok w19_h /\ Forall has_value w19_h /\
+   Forall rec_ok_upd (snd (run w19_s0u w19_h)) /\ sconsistent (sfacts w19_s0u w19_h)) /\
+  (fresh w19_s0c /\ Forall rec_ok (snd (run w19_s0c w19_h))) /\
+  alookup (stand_path w19_s1 w19_c0 w19_tA) (s_fs w19_s1) = Some w19_second /\ w19_second <> w19_third.
+Proof. exact C19_witnesses_all. Qed.
